@@ -92,11 +92,11 @@ Proof.
   { subst sa. destruct (lx_ubuf s <? usize); reflexivity. }
   clearbody sa. rewrite <- Ga.
   destruct e as [e|]; [intros H; inversion H; reflexivity|].
-  set (sb := if bytes_eqb comp _ then set lx_chunk _ _ else _).
+  set (sb := if drains_chunk comp then set lx_chunk _ _ else _).
   assert (Gb : lx_allocs sb = lx_allocs sa).
-  { subst sb. destruct (bytes_eqb comp _); reflexivity. }
+  { subst sb. destruct (drains_chunk comp); reflexivity. }
   clearbody sb. rewrite <- Gb.
-  destruct (if bytes_eqb comp _ then _ else None) as [x|]; [intros H; inversion H; reflexivity|].
+  destruct (if drains_chunk comp then _ else None) as [x|]; [intros H; inversion H; reflexivity|].
   destruct ((0 <? ucrc) && negb (crc32 data =? ucrc)); [intros H; inversion H; reflexivity|].
   intros H; inversion H; subst; clear H.
   destruct (_ || _); reflexivity.
